@@ -314,23 +314,70 @@ def _frame(case, backing):
     return DataFrame(rows=list(rows), schema=cols)
 
 
-def _group_by(df, case):
+def _key_arg(case):
+    """The argument object handed to `group_by`: a bare name, a tuple, a one-element set, or a list."""
     keys = case["keys"]
     if len(keys) == 1 and case.get("bare_key"):
-        return df.group_by(keys[0])
-    return df.group_by(tuple(keys) if case.get("key_container") == "tuple" else list(keys))
+        return keys[0]
+    kc = case.get("key_container")
+    if kc == "set" and len(keys) == 1:  # a set of several names has no order: the layout would be unspecified
+        return set(keys)
+    return tuple(keys) if kc == "tuple" else list(keys)
 
 
-def _call(gb, case):
+def _group_by(df, case, held=None):
+    """`held`: a dictionary that receives the argument object under "arg" (the caller keeps it, and may edit it)."""
+    arg = _key_arg(case)
+    if held is not None:
+        held["arg"] = arg
+    return df.group_by(arg)
+
+
+def _edit_in_place(obj, edit, names):
+    """The caller edits, in place, an argument object it handed over earlier.  A bare name and a tuple cannot be
+    edited; `names` is the content the object is given by a `become` edit."""
+    kind = edit[0]
+    if isinstance(obj, list):
+        if kind == "append":
+            obj.append(edit[1])
+        elif kind == "clear":
+            obj.clear()
+        elif kind == "reverse":
+            obj.reverse()
+        elif kind == "sort":
+            obj.sort()
+        elif kind == "pop" and obj:
+            obj.pop()
+        elif kind == "replace" and obj:
+            obj[edit[1] % len(obj)] = edit[2]
+        elif kind == "become":
+            obj[:] = list(names)
+    elif isinstance(obj, set):
+        if kind in ("append", "replace"):
+            obj.add(edit[-1])
+        elif kind in ("clear", "pop"):
+            obj.clear()
+        elif kind == "become":
+            obj.clear()
+            obj.update(names)
+
+
+def _call(gb, case, held=None):
     """One call on the GroupBy object `gb`: ('ok', header, rows) with the implementation's own
-    values, or ('err', exception class name)."""
+    values, or ('err', exception class name).  The request list (the column list of a wrapper) is the caller's
+    object: `held`, when given, is ONE list object reused for every call of a session (refilled in place), and
+    whatever list was handed over is emptied after the call returned, before the result is read - a result is
+    fixed when the call returns."""
+    mine = []
     try:
         if case.get("op", "aggregate") == "groups":
             res = gb.groups()
         else:
             via = case.get("via", "aggregate")
             if via == "aggregate":
-                res = gb.aggregate([(f, c) for f, c in case["reqs"]])
+                mine = held if held is not None else []
+                mine[:] = [(f, c) for f, c in case["reqs"]]
+                res = gb.aggregate(mine)
             elif via == "aggregate_bare":
                 res = gb.aggregate(tuple(case["reqs"][0]))  # one request, not wrapped in a list
             elif via == "count":
@@ -338,8 +385,10 @@ def _call(gb, case):
             else:
                 colsr = [c for _, c in case["reqs"]]
                 cc = case.get("col_container")
+                mine = colsr
                 res = getattr(gb, via)(colsr[0] if len(colsr) == 1 and case.get("bare_col") else
                                        tuple(colsr) if cc == "tuple" else set(colsr) if cc == "set" else colsr)
+        mine.clear()
         header = [str(c) for c in res.column_names]
         rows = []
         for r in res:  # a for loop: list(lazy frame) is [] on the pinned tree
@@ -369,11 +418,23 @@ NOOPS = ("len", "rowcount", "peek")
 # ... and a mutation of the frame between two calls: `df.append(row)`.  The GroupBy objects hold a reference
 # to the frame, so every later call is judged against the frame as it is then (theorem sequence_with_appends)
 APPEND = "append"
+# ... and the caller editing, in place, the list (set) of key columns it handed to `group_by` - after the GroupBy
+# object was created (it is created by this element at the latest), before it is evaluated or between two
+# evaluations.  {"op": "edit_keys", "gb": g, "edit": [kind, ...]}; the kind "become" gives the object the content
+# of `gbs[edit[1]]` and creates THAT GroupBy object from the same list object (one list reused for the next
+# grouping).  A GroupBy groups by the key columns as they were given when it was created (theorem
+# keys_fixed_at_creation): the reference of every later call is unchanged.
+EDIT_KEYS = "edit_keys"
+EDIT_KINDS = {"append": 2, "clear": 1, "reverse": 1, "sort": 1, "pop": 1, "replace": 3, "become": 2}
 
 
 def is_noop(el):
     """An element of a sequence that returns nothing to judge (it must not raise, though)."""
-    return el.get("op") in NOOPS or el.get("op") == APPEND
+    return el.get("op") in NOOPS or el.get("op") == APPEND or el.get("op") == EDIT_KEYS
+
+
+def has_key_edits(case):
+    return any(isinstance(el, dict) and el.get("op") == EDIT_KEYS for el in case.get("seq", []))
 
 
 def has_appends(case):
@@ -429,7 +490,17 @@ def valid_seq_case(c):
                 if not valid_case(probe):
                     return False
                 continue
-            if is_noop(el):
+            if el.get("op") == EDIT_KEYS:
+                ed = el.get("edit")
+                if not isinstance(ed, list) or not ed or EDIT_KINDS.get(ed[0]) != len(ed):
+                    return False
+                if ed[0] == "become" and not (isinstance(ed[1], int) and 0 <= ed[1] < len(c["gbs"])):
+                    return False
+                if ed[0] == "replace" and not isinstance(ed[1], int):
+                    return False
+                if ed[0] in ("append", "replace") and not isinstance(ed[-1], str):
+                    return False
+            elif is_noop(el):
                 continue
             if not isinstance(el.get("gb", 0), int) or not 0 <= el.get("gb", 0) < len(c["gbs"]):
                 return False
@@ -454,11 +525,32 @@ def run_impl_seq(case, backing="list"):
         backing = "list"
     df = _frame(case, backing)
     gbs = {}
+    args = {}  # the argument objects the caller handed to group_by, by object
+    reqlist = []  # ONE request list object, the caller's, refilled in place for every `aggregate` call of the session
+
+    def obj(g, sub):
+        if g not in gbs:
+            held = {}
+            gbs[g] = _group_by(df, sub, held)
+            args[g] = held["arg"]
+        return gbs[g]
+
     out = []
     for el in case["seq"]:
         if is_noop(el):
             try:
-                if el["op"] == APPEND:
+                if el["op"] == EDIT_KEYS:
+                    g = el.get("gb", 0)
+                    obj(g, sub_case(case, el))
+                    ed = el["edit"]
+                    if ed[0] == "become":
+                        _edit_in_place(args[g], ed, case["gbs"][ed[1]])
+                        if ed[1] not in gbs and isinstance(args[g], (list, set)):
+                            gbs[ed[1]] = df.group_by(args[g])  # the same list object, reused for the next grouping
+                            args[ed[1]] = args[g]
+                    else:
+                        _edit_in_place(args[g], ed, None)
+                elif el["op"] == APPEND:
                     df.append(dict(zip(case["columns"], [fresh(x) for x in actual_rows(dict(case, rows=[el["row"]]))[0]])))
                 elif el["op"] == "len":
                     len(df)
@@ -473,9 +565,7 @@ def run_impl_seq(case, backing="list"):
         sub = sub_case(case, el)
         g = el.get("gb", 0)
         try:
-            if g not in gbs:
-                gbs[g] = _group_by(df, sub)
-            out.append(_call(gbs[g], sub))
+            out.append(_call(obj(g, sub), sub, reqlist))
         except Exception as e:  # noqa: BLE001
             out.append(("err", type(e).__name__))
     return out
@@ -501,11 +591,14 @@ def oracle_seq(case, ctx=None, by_backing=None, wants=None):
             first = res
         used = set()
         appended = False
+        edited = False
         for i, ((el, sub), impl, want) in enumerate(zip(seq_subs(case), res, wants)):
             if is_noop(el):
                 if impl[0] == "err":
-                    return "%s of the frame raised %s%s" % (el["op"], impl[1], backing_label(b)), res
+                    return "%s %s raised %s%s" % (el["op"], "(creating the GroupBy object, then the caller's edit of its own list)"
+                                                  if el["op"] == EDIT_KEYS else "of the frame", impl[1], backing_label(b)), res
                 appended = appended or el["op"] == APPEND
+                edited = edited or el["op"] == EDIT_KEYS
                 continue
             g = el.get("gb", 0)
             cl = compare(sub, impl, want)
@@ -515,10 +608,12 @@ def oracle_seq(case, ctx=None, by_backing=None, wants=None):
             if cl is not None:
                 if g in used:
                     cl = LATER_CALL + cl
-                elif i > 0:
+                elif used:
                     cl = SECOND_OBJECT + cl
                 if appended:
                     cl = APPENDED + cl
+                if edited:
+                    cl = KEYS_EDITED + cl
                 if b != "list":
                     cl += backing_label(b)
                 return cl, res
@@ -579,12 +674,46 @@ def code_line_seq(case, lazy):
         return None
     if is_x(case) or has_appends(case):
         return None  # the code-level interpreter computes on integers, over one fixed frame
+    if has_key_edits(case):
+        return None if case.get("keq") else _code_session_line(case, lazy)
     calls = []
     for el in case["seq"]:
         if not is_noop(el):
             calls.append([el.get("gb", 0), ["groups"] if el.get("op", "aggregate") == "groups" else ["aggregate", el["reqs"]]])
     # `keq`: the dictionaries of the program find a group as Python's == and hash see its key (identKeyOf)
     return "C12 %s " % ("code_calls_eq" if case.get("keq") else "code_calls") + wire.line(cols, case["rows"], bool(lazy), case["gbs"], calls)
+
+
+def _code_session_line(case, lazy):
+    """The driver line of a session with key edits: the content of the caller's lists is worked out here (on
+    lists of the same aliasing as in `run_impl_seq`), the model decides whether a GroupBy object sees it."""
+    created, args, evs = set(), {}, []
+
+    def obj(g, el):
+        if g not in created:
+            created.add(g)
+            args[g] = _key_arg(sub_case(case, el))
+        return args[g]
+
+    for el in case["seq"]:
+        g = el.get("gb", 0)
+        if el.get("op") == EDIT_KEYS:
+            a = obj(g, el)
+            if isinstance(a, set):
+                return None  # the order of a set's elements is not specified
+            ed = el["edit"]
+            _edit_in_place(a, ed, case["gbs"][ed[1]] if ed[0] == "become" else None)
+            if ed[0] == "become" and ed[1] not in created and isinstance(a, list):
+                created.add(ed[1])
+                args[ed[1]] = a
+            if isinstance(a, list):
+                for h in sorted(created):
+                    if args[h] is a:
+                        evs.append(["edit", h, list(a)])
+        elif not is_noop(el):
+            obj(g, el)
+            evs.append(["call", g, ["groups"] if el.get("op", "aggregate") == "groups" else ["aggregate", el["reqs"]]])
+    return "C12 code_session " + wire.line(case["columns"], case["rows"], bool(lazy), case["gbs"], evs)
 
 
 def code_results_seq(case, text):
@@ -668,6 +797,8 @@ def evaluate_seq(ctx, cases):
         ctx.hit("rows:%s" % (len(c["rows"]) if len(c["rows"]) < 7 else "7-19" if len(c["rows"]) < 20 else "20+"))
         for el in c["seq"]:
             ctx.hit("seq-op:" + (el["op"] if is_noop(el) else "groups" if el.get("op") == "groups" else el.get("via", "aggregate")))
+            if el.get("op") == EDIT_KEYS:
+                ctx.hit("caller-edits-its-key-list:%s%s" % (el["edit"][0], ":set" if el.get("key_container") == "set" else ""))
         if any(a == b for a, b in zip(c["seq"], c["seq"][1:])):
             ctx.hit("seq-identical-repeat")
         if c.get("keq"):
@@ -1092,6 +1223,7 @@ def shows_first_member(case, impl, want):
 
 
 APPENDED = "after rows were appended to the frame: "
+KEYS_EDITED = "after the caller edited the key-column list it had handed to group_by(): "
 
 
 LATER_CALL = "a later call on the same GroupBy object: "
@@ -1105,7 +1237,7 @@ def _norm(clause):
     the shrunk input), and so that the failing inputs of one run differ in more than their wrapping."""
     if clause is None:
         return None
-    for pre in (APPENDED, LATER_CALL, SECOND_OBJECT):
+    for pre in (KEYS_EDITED, APPENDED, LATER_CALL, SECOND_OBJECT):
         clause = clause.replace(pre, "")
     if clause.endswith("]") and " [" in clause:
         clause = clause[:clause.rindex(" [")]
@@ -1690,6 +1822,36 @@ X_SEQ_FRAME = [[-1, "a", "nan", 5], [-2, "a", 2, None], [-1, "a", None, "inf"], 
 APPEND_ROWS = [[-1, "a", 7, None], [5, "z", None, None], [2**61 - 1, "a", 1, 1], [None, "", None, 2], [-2, "a", 0, 0]]
 
 
+KEY_EDITS = [["append", "v"], ["clear"], ["reverse"], ["replace", 0, "j"], ["pop"], ["append", "j"], ["sort"],
+             ["replace", 1, "w"], ["append", "nope"], ["become", 1]]
+
+
+def key_edit_sessions(rows, seq, i):
+    """create -> the caller edits its own key list -> evaluate (-> edit again -> evaluate again)."""
+    ed = KEY_EDITS[i % len(KEY_EDITS)]
+    ed2 = KEY_EDITS[(i // len(KEY_EDITS) + 3) % len(KEY_EDITS)]
+    objs = [[["k", "j"], ["j"]], [["k"], ["k", "j"]], [["j", "k"], ["k", "j"]]][i % 3]
+    back = ["list"] if i % 4 else [["gen", "take", "decoy", "select"][(i // 4) % 4]]
+    first = {"op": EDIT_KEYS, "gb": 0, "edit": ed}
+    if len(objs[0]) == 1 and i % 2:
+        first["key_container"] = "set"
+    if ed[0] == "become":
+        # one list object reused for the next grouping: the object made from it groups by the new content, the
+        # earlier one by the content it was created with
+        if len(seq) == 1:
+            yield seq_base(rows, [first, dict(seq[0], gb=1), dict(seq[0], gb=0)], objs, back)
+        else:
+            yield seq_base(rows, [dict(seq[0], gb=0), first, dict(seq[1], gb=1), dict(seq[0], gb=0)], objs, back)
+    elif len(seq) == 1:
+        yield seq_base(rows, [first, dict(seq[0], gb=0)], objs, back)
+    else:
+        # evaluated, edited, evaluated again (the registry of the object is filled by then); the other object too
+        yield seq_base(rows, [dict(seq[0], gb=0), first, dict(seq[1], gb=0)], objs, back)
+        if i % 2 == 0:
+            yield seq_base(rows, [first, dict(seq[0], gb=0), {"op": EDIT_KEYS, "gb": 1, "edit": ed2}, dict(seq[1], gb=1),
+                                  dict(seq[0], gb=0)], objs, back)
+
+
 def seq_base(rows, seq, gbs, backings):
     return {"columns": ["k", "j", "v", "w"], "vcols": ["v", "w"], "rows": [list(r) for r in rows], "scale": 1,
             "gbs": [list(g) for g in gbs], "seq": [dict(e) for e in seq], "backings": list(backings)}
@@ -1706,6 +1868,8 @@ def exhaustive_sequences(ctx, maxlen):
                 second = ["gen", "dicts", "schema", "select", "filter", "take", "genselect", "decoy"]
                 back = ["list"] if i % 5 else ["list", second[(i // 5) % len(second)]]
                 yield seq_base(rows, seq, [["k", "j"]], back)
+                if n == 1 or i % 3 == 0:
+                    yield from key_edit_sessions(rows, seq, i)
                 if n >= 2:
                     alt = [dict(e, gb=j % 2) for j, e in enumerate(seq)]
                     yield seq_base(rows, alt, [["k", "j"], ["j", "k"]], ["list"])
@@ -1782,6 +1946,22 @@ def random_seq_case(ctx, big=False):
             new = [rng.choice(rows)[i] if rows else None for i in range(len(out["columns"]))]
             new = [x % 2**40 if isinstance(x, int) and not isinstance(x, bool) and not -2**63 <= x < 2**63 else x for x in new]
             out["seq"].insert(rng.randrange(len(out["seq"]) + 1), {"op": APPEND, "row": new})
+    if rng.random() < 0.25:
+        # the caller edits, in place, a key list it handed to group_by (before the first evaluation or between two)
+        for _ in range(rng.choice([1, 1, 2])):
+            g = rng.randrange(len(gbs))
+            kind = rng.choice(["append", "append", "clear", "reverse", "sort", "pop", "replace", "become"])
+            ed = [kind]
+            if kind in ("append", "replace"):
+                if kind == "replace":
+                    ed.append(rng.randrange(4))
+                ed.append(rng.choice(out["columns"] + ["nope"]))
+            elif kind == "become":
+                ed.append(rng.randrange(len(gbs)))
+            el = {"op": EDIT_KEYS, "gb": g, "edit": ed}
+            if len(gbs[g]) == 1 and rng.random() < 0.3:
+                el["key_container"] = "set"
+            out["seq"].insert(rng.randrange(len(out["seq"])), el)
     if not valid_seq_case(out) or not all(in_domain(sub) for _, sub in seq_subs(out) if sub is not None):
         return random_seq_case(ctx, big)
     return out
